@@ -20,6 +20,7 @@ import ast
 
 from sa import core
 from sa import effects
+from sa import pat
 from sa import pycfg
 from sa import setalg
 from sa import tpl
@@ -38,30 +39,76 @@ VISITORS = {'visit_If': 'if_stmt', 'visit_While': 'while_stmt',
             'visit_For': 'for_stmt'}
 
 
-def block_vars_atoms(e):
-  t = core.norm(e)
-  return {
-      'modified': 'MODIFIED',
-      'anno.getanno(node, anno.Static.DEFINED_VARS_IN)': 'DEFINED_IN',
-      'anno.getanno(node, anno.Static.LIVE_VARS_IN)': 'LIVE_IN',
-      'anno.getanno(node, anno.Static.LIVE_VARS_OUT)': 'LIVE_OUT',
-      'self.state[_Function].scope.nonlocals': 'FN.nonlocals',
-      'self.state[_Function].scope.globals': 'FN.globals',
-      'fn_scope.nonlocals': 'FN.nonlocals',
-      'fn_scope.globals': 'FN.globals',
-  }.get(t)
+def _block_vars_atoms(aliases):
+  def at(e):
+    t = setalg.alias_text(e, aliases)
+    if t.startswith('anno.getanno(') and 'anno.Static.DEFINED_VARS_IN' in t:
+      return 'DEFINED_IN'
+    if t.startswith('anno.getanno(') and 'anno.Static.LIVE_VARS_IN' in t:
+      return 'LIVE_IN'
+    if t.startswith('anno.getanno(') and 'anno.Static.LIVE_VARS_OUT' in t:
+      return 'LIVE_OUT'
+    return {
+        'self.state[_Function].scope.nonlocals': 'FN.nonlocals',
+        'self.state[_Function].scope.globals': 'FN.globals',
+    }.get(t)
+  return at
+
+
+class BlockVars:
+  """_get_block_vars evaluated to membership formulas (names derived from the
+  structure of the function, not from what its locals are called)."""
+
+  def __init__(self, model):
+    fi = model.func(CF, 'ControlFlowTransformer._get_block_vars')
+    self.fi = fi
+    self.aliases = setalg.single_assignment_aliases(fi.node)
+    # helper methods resolve their own aliases when inlined
+    cls = fi.cls
+
+    def at(e):
+      for f in [fi] + [m for m in cls.methods.values()]:
+        pass
+      return _block_vars_atoms(self.all_aliases)(e)
+
+    self.all_aliases = dict(self.aliases)
+    for m in cls.methods.values():
+      if m.name.startswith('_get_block'):
+        self.all_aliases.update(setalg.single_assignment_aliases(m.node))
+    ps = fi.params()
+    self.ev = setalg.Ev(model, fi, at)
+    env = {ps[1]: setalg.SetV(atom('MODIFIED')), ps[0]: setalg.Opaque('node')}
+    rets, _ = self.ev.run(env)
+    if len(rets) != 1 or not isinstance(rets[0][1], setalg.TupleV) or \
+        len(rets[0][1].items) != 3:
+      raise core.AnalysisError('_get_block_vars: expected one return of a 3-tuple')
+    pc, v, renv = rets[0]
+    self.state, self.undefined, self.nouts_val = v.items
+    self.env = renv
+    ret = [r for r in ast.walk(fi.node) if isinstance(r, ast.Return)][0]
+    self.ret = ret
+    self.state_name = core.norm(ret.value.elts[0])
+    self.nouts_name = core.norm(ret.value.elts[2])
+    # nouts = len(<state list>) - len(<input only set>)
+    self.nouts_assign = None
+    self.input_only_name = None
+    for n in ast.walk(fi.node):
+      if isinstance(n, ast.Assign) and core.norm(n.targets[0]) == self.nouts_name:
+        self.nouts_assign = n
+        b = pat.match('len(_X_) - len(_Y_)', n.value)
+        if b:
+          self.total_name, self.input_only_name = b['_X_'], b['_Y_']
+    self.input_only = renv.get(self.input_only_name) if self.input_only_name else None
 
 
 def eval_block_vars(model):
-  """Evaluates ControlFlowTransformer._get_block_vars to formulas."""
-  fi = model.func(CF, 'ControlFlowTransformer._get_block_vars')
-  ev = setalg.Ev(model, fi, block_vars_atoms)
-  env = {'modified': setalg.SetV(atom('MODIFIED')), 'node': setalg.Opaque('node')}
-  rets, _ = ev.run(env)
-  if len(rets) != 1 or rets[0][1] is None:
-    raise core.AnalysisError('_get_block_vars: expected one return')
-  pc, v, renv = rets[0]
-  return fi, ev, v, renv
+  """Compatibility wrapper: (fi, ev, TupleV(state, undefined, nouts), env with
+  'input_only')."""
+  bv = BlockVars(model)
+  env = dict(bv.env)
+  if bv.input_only is not None:
+    env['input_only'] = bv.input_only
+  return bv.fi, bv.ev, setalg.TupleV([bv.state, bv.undefined, bv.nouts_val]), env
 
 
 def check(model, rep, tier):
@@ -120,9 +167,12 @@ def check(model, rep, tier):
               line=v.node.lineno)
   # inside _create_state_functions
   bv = csf.params()[0]
+  st_main = [s for s in sites if s.fi.node is csf.node and 'state_vars' in s.kwargs]
+  glist = core.norm(st_main[0].kwargs['guarded_state_vars']) if st_main and \
+      'guarded_state_vars' in st_main[0].kwargs else None
   loops = [n for n in csf.node.body if isinstance(n, ast.For) and
            core.norm(n.iter) == bv]
-  ok = len(loops) == 1
+  ok = len(loops) == 1 and glist is not None
   rng = None
   if ok:
     lp = loops[0]
@@ -131,7 +181,7 @@ def check(model, rep, tier):
     g = pycfg.CFG(fake)
     w = {i: 1 for i in range(len(g.nodes)) if any(
         isinstance(c.func, ast.Attribute) and c.func.attr == 'append' and
-        core.norm(c.func.value) == 'guarded_block_vars'
+        core.norm(c.func.value) == glist
         for c in pycfg.calls_at(g, i))}
     rng = g.count_range(w, skip_labels=())
     ok = rng == (1, 1) and not any(isinstance(x, (ast.Break, ast.Continue))
@@ -139,10 +189,8 @@ def check(model, rep, tier):
   rep.check(ok, 'SEQ', '%s:getter-list-one-per-variable' % csf.site,
             'the getter list must receive exactly one entry per state variable, '
             'in order', {'appends_per_iteration': rng}, line=csf.node.lineno)
-  st_main = [s for s in sites if s.fi.node is csf.node and 'state_vars' in s.kwargs]
   ok = len(st_main) == 1 and core.norm(st_main[0].kwargs['state_vars']) == \
-      'tuple(%s)' % bv and core.norm(st_main[0].kwargs['guarded_state_vars']) == \
-      'guarded_block_vars'
+      'tuple(%s)' % bv and glist is not None
   rep.check(ok, 'SEQ', '%s:setter-targets' % csf.site,
             'setter targets must be tuple(block_vars) and the getter must return '
             'the guarded list built from it', line=csf.node.lineno)
@@ -181,8 +229,11 @@ def check(model, rep, tier):
   ldu_sites = [s for s in sites if s.fi.node is csf.node and any(
       'ag__.ldu' in t.text for t in s.templates)]
   ok = len(ldu_sites) == 1 and ldu_sites[0].templates[0].text.strip() == \
-      'ag__.ldu(lambda: var_, name)' and core.norm(ldu_sites[0].kwargs['var_']) == 'v' \
-      and core.norm(ldu_sites[0].kwargs['name']) == 'ast.Constant(str(v))'
+      'ag__.ldu(lambda: var_, name)'
+  if ok:
+    lv = core.norm(ldu_sites[0].kwargs['var_'])
+    ok = loops and lv == core.norm(loops[0].target) and core.norm(
+        ldu_sites[0].kwargs['name']) == 'ast.Constant(str(%s))' % lv
   rep.check(ok, 'GETSET', '%s:composites-through-ldu' % csf.site,
             'composite state must be read as ag__.ldu(lambda: <sym>, <name>)',
             line=csf.node.lineno)
@@ -258,8 +309,13 @@ def ldu(load_v, name):
         holds = d is not None and any(
             isinstance(n, ast.Name) and n.id == want_ph for n in ast.walk(d))
         src = main.kwargs.get(want_ph)
-        okv = src is not None and (
-            core.norm(src) in ('node.' + want_ph, 'orelse_body'))
+        okv = src is not None
+        if okv:
+          ds = tpl.rdefs(v.node).reaching(main.call, src.id) if isinstance(
+              src, ast.Name) else None
+          texts = [core.norm(src)] + [core.norm(d) for d in (ds or [])
+                                      if not isinstance(d, tuple)]
+          okv = ('node.' + want_ph) in texts
         rep.check(holds and okv, 'OP-ROLE', site,
                   'argument for `%s` must be the generated function that holds '
                   'the user\'s %s' % (pname, want_ph),
